@@ -160,6 +160,10 @@ func (c *Chain) Propose(nd *node.Node, txs []node.MixTx, opName string) (*Propos
 	hb, _ := lib.Marshal(blk.BlockHeader)
 	p := &Proposal{ID: hex.EncodeToString(blk.BlockHeader.Hash)[:16], Block: block, Results: results, RC: rc, NTx: len(blk.Transactions),
 		Obs: Dig(hb, ResBytes(results))}
+	// the harness must be able to certify the block: every committee member's key is known to it
+	if signed, need := c.Net.SignedPower(vs, c.Net.AllSigners()); signed < need {
+		panic(fmt.Sprintf("harness: cannot build a +2/3 certificate at height %d: signed power %d, threshold %d (a committee member's key is unknown to the harness)", blk.BlockHeader.Height, signed, need))
+	}
 	p.PropQC = c.Net.Certify(vs, block, results, c.Net.AllSigners(), lib.Phase_PROPOSE, rc, nd.Key)
 	p.QC = c.Net.Certify(vs, block, results, c.Net.AllSigners(), lib.Phase_PRECOMMIT_VOTE, rc, nd.Key)
 	c.Op(fmt.Sprintf("%s %s %s gmp=%d", name, opName, p.ID, k), "ok")
